@@ -313,52 +313,52 @@ Definition pre_build (ct : cls_table) (oid : Z) (k : kind) (args : list Z) (kw :
     end
   end.
 
+(* returns the object as mutated so far (a failure deep inside leaves the subsets built
+   before it in place), the error if any, and the call log *)
 Fixpoint build (ct : cls_table) (t : det) (args : list Z) (kw : kwargs) {struct t}
-  : res det * list logent :=
+  : det * option err * list logent :=
   match t with
   | Node oid k msig pos subs =>
     match pre_build ct oid k args kw with
-    | Err e => (Err e, [])
+    | Err e => (t, Some e, [])
     | Ok (args1, kw1, log0) =>
       if is_base subs then
-        (* base subset: create the antennas *)
-        (* self.subsets = [] precedes  for p in self.antenna_positions ; for a
+        (* base subset: create the antennas.
+           self.subsets = [] precedes  for p in self.antenna_positions ; for a
            CombinedDetector antenna_positions is a property over the (now empty) subsets *)
         let positions := match k with KComb => [] | KDet _ => pos end in
         match (match kw_lookup K_ANTENNA_CLASS kw1 with
                | Some ac => Some (ac, args1, remove_key K_ANTENNA_CLASS kw1)
                | None => match args1 with a :: r => Some (a, r, kw1) | [] => None end
                end) with
-        | None => (Err EType, log0)
+        | None => (t, Some EType, log0)
         | Some (ac, args2, kw2) =>
-          (Ok (Node oid k msig pos (map Ant positions)),
+          (Node oid k msig pos (map Ant positions), None,
            log0 ++ map (fun p => LAnt (a_id p) ac args2 kw2) positions)
         end
       else
         let matching := builds_match subs in
-        if negb matching && negb (Nat.eqb (length args1) 0) then (Err EType, log0)
+        if negb matching && negb (Nat.eqb (length args1) 0) then (t, Some EType, log0)
         else
-          let fix go (l : list det) : res (list det) * list logent :=
+          let fix go (l : list det) : list det * option err * list logent :=
             match l with
-            | [] => (Ok [], [])
+            | [] => ([], None, [])
             | s :: r =>
               match s with
               | Node _ _ m _ _ =>
-                let '(rs, lg) := if matching then build ct s args1 kw1
-                                 else build ct s [] (route_build m kw1) in
-                match rs with
-                | Err e => (Err e, lg)
-                | Ok s' => let '(rr, lg2) := go r in
-                           (match rr with Ok r' => Ok (s' :: r') | Err e => Err e end, lg ++ lg2)
+                let '(s', e, lg) := if matching then build ct s args1 kw1
+                                    else build ct s [] (route_build m kw1) in
+                match e with
+                | Some _ => (s' :: r, e, lg)
+                | None => let '(r', e2, lg2) := go r in (s' :: r', e2, lg ++ lg2)
                 end
-              | _ => let '(rr, lg2) := go r in
-                     (match rr with Ok r' => Ok (s :: r') | Err e => Err e end, lg2)
+              | _ => let '(r', e2, lg2) := go r in (s :: r', e2, lg2)
               end
             end in
-          let '(rs, lg) := go subs in
-          (match rs with Ok subs' => Ok (Node oid k msig pos subs') | Err e => Err e end, log0 ++ lg)
+          let '(subs', e, lg) := go subs in
+          (Node oid k msig pos subs', e, log0 ++ lg)
     end
-  | _ => (Err EType, [])
+  | _ => (t, Some EType, [])
   end.
 
 (* ---------------------------------------------------------------- triggered *)
@@ -572,13 +572,10 @@ Definition step (ct : cls_table) (s : st) (o : op) : st * out :=
     match get s i with
     | None => (s, OutSkip)
     | Some t =>
-      let '(r, lg) := build ct t args kw in
-      match r with
-      | Ok t' =>
-        let built := flat_map (fun e => match e with LAnt a _ _ _ => [(a, (false, false))] | _ => [] end) lg in
-        (mkst (subst_env (collect t') (env s)) (built ++ hs s) (next s), OutLog (Ok true) lg)
-      | Err e => (s, OutLog (Err e) lg)
-      end
+      let '(t', e, lg) := build ct t args kw in
+      let built := flat_map (fun x => match x with LAnt a _ _ _ => [(a, (false, false))] | _ => [] end) lg in
+      (mkst (subst_env (collect t') (env s)) (built ++ hs s) (next s),
+       OutLog (match e with None => Ok true | Some e' => Err e' end) lg)
     end
   | OSetHit a hit mc => (mkst (env s) ((a, (hit, mc)) :: hs s) (next s), OutOk)
   | OObs i idx =>
